@@ -215,6 +215,12 @@ impl<F: FixedChannelRegion> RegionHandler for FixedChannelPlan<F> {
                     // channels 64..=71. Else, we must use 0-63
                     let bandwidth = F::datarates()[datarate as usize].as_ref().unwrap().bandwidth;
                     if bandwidth == Bandwidth::_500KHz {
+                        // A mask without any 500 kHz channel (CFList, ADR back-off onto another
+                        // bandwidth, ...) would make the search below spin forever:
+                        // fall back to the default 500 kHz channels.
+                        if !(64..72).any(|i| self.channel_mask.is_enabled(i).unwrap()) {
+                            self.channel_mask.set_bank(8, 0xFF);
+                        }
                         let mut channel = (rng.next_u32() & 0b111) as u8;
                         // keep selecting a random channel until we find one that is enabled
                         while !self.channel_mask.is_enabled((channel + 64).into()).unwrap() {
@@ -222,6 +228,12 @@ impl<F: FixedChannelRegion> RegionHandler for FixedChannelPlan<F> {
                         }
                         (datarate, 64 + channel)
                     } else {
+                        // likewise for the 125 kHz channels
+                        if !(0..64).any(|i| self.channel_mask.is_enabled(i).unwrap()) {
+                            for bank in 0..8 {
+                                self.channel_mask.set_bank(bank, 0xFF);
+                            }
+                        }
                         let mut channel = (rng.next_u32() & 0b111111) as u8;
                         // keep selecting a random channel until we find one that is enabled
                         while !self.channel_mask.is_enabled(channel.into()).unwrap() {
